@@ -206,7 +206,8 @@ class LoopMixin:
 
     # ---- invariant-based ----------------------------------------------------------------------
     def inv_env(self, st, spec, idx):
-        loc = dict(self.entry_locals)
+        # invariants see the *current* values of variables (parameters included); entry values are reached through old(...)
+        loc = {k: v for k, v in self.entry_locals.items() if k not in st.vars}
         if idx is not None:
             loc[spec.get("index", "_i")] = SV(ty.Int, idx)
         return Env(st, self.entry, loc)
